@@ -6,7 +6,7 @@ from props.common import *
 
 BOUNDS = ("schemas: catalogue U_Q (quick) / U_T (thorough), see vfw/catalogue.py; integers |n| <= 2^33 (quick) / 2^65 (thorough); "
           "octet/character strings up to 4 symbolic octets; OID arcs < 2^35; BIT STRING lengths 0..10 (0..18) x 3 patterns; "
-          "REAL base 2 |m| <= 20, |e| <= 9 (63, 31); defMode symbolic; maxChunkSize symbolic in [0, 2^31)")
+          "REAL base 2 |m| <= 20, |e| <= 9 (63, 31); defMode symbolic; maxChunkSize symbolic in [0, 2^31); plus payloads of 126..129, 255..257, 65535, 65536 octets in four shapes")
 OUTSIDE = "REAL from Python floats / base 10; utf-16/utf-32 string contents beyond the corpus; nesting depth > 3; schemas outside the catalogue"
 
 
@@ -23,7 +23,36 @@ def rt_ber(sid, defMode, chunk, **slots):
     return None
 
 
-OBLIGATIONS = [
+LONG = (126, 127, 128, 129, 255, 256, 257, 65535, 65536)
+
+
+def rt_long(shape, li, x, defMode, chunk):
+    """Payloads whose length octets sit on the 127/128, 255/256, 65535/65536 boundaries (content concrete but one symbolic octet)."""
+    from vfw.schema import T
+
+    n = LONG[li]
+    body = bytes([x]) + bytes([(i * 7 + 3) % 251 for i in range(n - 1)])
+    if shape == 0:
+        t, av = T("OCTS"), body
+    elif shape == 1:
+        t, av = T("STR:IA5").tagged(("E", "C", 2)), bytes(b % 128 for b in body)
+    elif shape == 2:
+        t, av = T("SEQ", comps=[("p", T("OCTS"), "req", None), ("q", T("INT"), "opt", None)]), {"p": body[:n - 4] if n > 4 else body, "q": 5}
+    else:
+        t, av = T("SEQOF", elem=T("OCTS").tagged(("I", "C", 0))), [body[: n // 2], body[n // 2:]]
+    ck = (0, 100, 1000, 2 ** 20)[chunk]
+    enc = ber_encoder.encode(build(t, av), defMode=defMode, maxChunkSize=ck)
+    w, rest = ber_decoder.decode(substrate(enc), asn1Spec=mk_type(t))
+    if len(rest) != 0:
+        return "non-empty remainder"
+    if not same(t, absval(t, w), av):
+        return "decoded value differs from the encoded one"
+    return None
+
+
+OBLIGATIONS = [Obl("rt_long", rt_long, {"shape": I(0, 3), "li": I(0, len(LONG) - 1), "x": I(0, 127), "defMode": B, "chunk": I(0, 3)},
+                   shards=[{"shape": C(s_), "li": C(l_)} for s_ in range(4) for l_ in range(len(LONG)) if l_ < 7 or s_ in (0, 3)], budget=150, per_path=100,
+                   doc="payload lengths 126..129, 255..257, 65535, 65536 in four shapes; definite/indefinite; maxChunkSize 0/100/1000/2^20")] + [
     entry_obl("rt_ber", rt_ber, e, extra={"defMode": B, "chunk": I(0, 2 ** 31 - 1)})
     for e in all_entries()
 ]
